@@ -44,6 +44,10 @@ pub fn install_panic_hook() {
         } else {
             "?".to_string()
         };
+        if std::env::var("VH_DEBUG").is_ok() || !loc.contains("/repo/") && !loc.contains(".cargo/registry") && !loc.contains("/rustc/") {
+            // a panic in the harness itself (not in the crate under test) is a tool error: show it
+            eprintln!("harness panic at {loc}: {msg}");
+        }
         LAST_PANIC.with(|p| *p.borrow_mut() = Some(format!("{loc}: {msg}")));
     }));
 }
@@ -115,6 +119,7 @@ pub type IoLog = Arc<Mutex<Vec<(usize, i64)>>>;
 /// A `Read` that delivers exactly the scheduled number of octets per call
 /// (clipped by the caller's buffer and what is left), cycling through `sched`,
 /// and fails with an I/O error at call index `fault_at` (0-based), if any.
+#[derive(Debug)]
 pub struct SchedReader {
     pub data: Vec<u8>,
     pub pos: usize,
@@ -162,6 +167,7 @@ impl Read for SchedReader {
 }
 
 /// BufRead flavour: `fill_buf` exposes the next scheduled slice.
+#[derive(Debug)]
 pub struct SchedBufReader {
     pub inner: SchedReader,
     cur: Vec<u8>,
